@@ -14,7 +14,7 @@ Anchored in: {', '.join(p['anchors']['files'])}
 
 YOUR TASK: write ONE small, realistic change to the project's source (the kind of bug a maintainer could plausibly introduce in a refactor or optimisation: an off-by-one on a boundary, a dropped guard, a swapped comparison, a stale cache, a missing flush, a wrong branch for a rare case, two cooperating sites that each look fine alone) that BREAKS this property while the project still compiles and its existing test suite still passes. The change must need something specific to manifest — a particular boundary value or unusual input, a multi-step sequence of operations, a particular interleaving, a crash or fault at a particular point — NOT something ordinary use would expose at once. Do not touch tests, do not add cfg tricks, do not make the change depend on environment variables or time. Avoid changes whose only effect is a crash on every call.
 
-Then write a DEMONSTRATION: a small Rust integration test (a new file under {wt}/tests/) or example program that FAILS with your change and PASSES without it (verify both: `git stash` / `git stash pop`), exercising the property through the public API where possible.
+Then write a DEMONSTRATION: a small Rust integration test (a new file under {wt}/tests/) or example program that FAILS with your change and PASSES without it (verify both; NEVER use `git stash` - the stash stack is shared by all worktrees of /repo and other agents use it concurrently: save your change with `git diff > {wt}_out/patch.diff`, remove it with `git apply -R`, re-apply with `git apply`), exercising the property through the public API where possible.
 Verify that the existing tests relevant to the touched code still pass with your change (`cargo test --offline --lib <module path>` and any integration test file that exercises it; note that the pinned tree has ~10 always-failing tests unrelated to you: compare with a run without your change if a test fails).
 
-OUTPUT in {wt}_out/: `patch.diff` (git diff of the source change only, no test), `demo.rs` (your demonstration, with a comment on how to run it), `notes.md` (what the change is, why it breaks the property, what exactly is needed to make it manifest, which existing tests you ran and their result with and without the change). Finally leave the worktree CLEAN of your source change (git stash drop / checkout) but keep {wt}_out. Your final message: a 10-line summary of the above.""")
+OUTPUT in {wt}_out/: `patch.diff` (git diff of the source change only, no test), `demo.rs` (your demonstration, with a comment on how to run it), `notes.md` (what the change is, why it breaks the property, what exactly is needed to make it manifest, which existing tests you ran and their result with and without the change). Finally leave the worktree CLEAN of your source change (git apply -R or git checkout -- src) but keep {wt}_out. Your final message: a 10-line summary of the above.""")
